@@ -5,11 +5,11 @@ package main
 
 import (
 	"fmt"
-	"unsafe"
 	"go/types"
 	"math"
 	"regexp"
 	"strings"
+	"unsafe"
 
 	"golang.org/x/tools/go/ssa"
 )
@@ -309,12 +309,12 @@ func init() {
 			}
 			return s
 		},
-		"internal/bytealg.IndexByte":       extIndexByte,
-		"internal/bytealg.IndexByteString": extIndexByte,
-		"internal/bytealg.LastIndexByte":   extLastIndexByte,
+		"internal/bytealg.IndexByte":           extIndexByte,
+		"internal/bytealg.IndexByteString":     extIndexByte,
+		"internal/bytealg.LastIndexByte":       extLastIndexByte,
 		"internal/bytealg.LastIndexByteString": extLastIndexByte,
-		"internal/bytealg.Count":           extCountByte,
-		"internal/bytealg.CountString":     extCountByte,
+		"internal/bytealg.Count":               extCountByte,
+		"internal/bytealg.CountString":         extCountByte,
 		"internal/bytealg.Equal": func(fr *frame, a []value) value {
 			return fr.i.seqEq(a[0].([]value), a[1].([]value))
 		},
@@ -384,33 +384,33 @@ func init() {
 			y0, y1 := uintptr(unsafe.Pointer(&y[0])), uintptr(unsafe.Pointer(&y[len(y)-1]))
 			return x0 <= y1 && y0 <= x1
 		},
-		"internal/abi.NoEscape":        func(fr *frame, a []value) value { return a[0] },
-		"internal/abi.Escape":          func(fr *frame, a []value) value { return a[0] },
-		"runtime.KeepAlive":            extNop,
-		"runtime.SetFinalizer":         extNop,
-		"runtime.GC":                   extNop,
-		"runtime.Gosched":              extNop,
-		"runtime.GOMAXPROCS":           func(fr *frame, a []value) value { return 1 },
-		"runtime.NumCPU":               func(fr *frame, a []value) value { return 1 },
-		"internal/race.Acquire":        extNop,
-		"internal/race.Release":        extNop,
-		"internal/race.ReleaseMerge":   extNop,
-		"internal/race.Enable":         extNop,
-		"internal/race.Disable":        extNop,
-		"internal/race.Read":           extNop,
-		"internal/race.Write":          extNop,
-		"internal/race.ReadRange":      extNop,
-		"internal/race.WriteRange":     extNop,
-		"(*sync.Mutex).Lock":           extNop,
-		"(*sync.Mutex).Unlock":         extNop,
-		"(*sync.Mutex).TryLock":        func(fr *frame, a []value) value { return true },
-		"(*sync.RWMutex).Lock":         extNop,
-		"(*sync.RWMutex).Unlock":       extNop,
-		"(*sync.RWMutex).RLock":        extNop,
-		"(*sync.RWMutex).RUnlock":      extNop,
-		"(*sync.WaitGroup).Add":        extNop,
-		"(*sync.WaitGroup).Done":       extNop,
-		"(*sync.WaitGroup).Wait":       extNop,
+		"internal/abi.NoEscape":      func(fr *frame, a []value) value { return a[0] },
+		"internal/abi.Escape":        func(fr *frame, a []value) value { return a[0] },
+		"runtime.KeepAlive":          extNop,
+		"runtime.SetFinalizer":       extNop,
+		"runtime.GC":                 extNop,
+		"runtime.Gosched":            extNop,
+		"runtime.GOMAXPROCS":         func(fr *frame, a []value) value { return 1 },
+		"runtime.NumCPU":             func(fr *frame, a []value) value { return 1 },
+		"internal/race.Acquire":      extNop,
+		"internal/race.Release":      extNop,
+		"internal/race.ReleaseMerge": extNop,
+		"internal/race.Enable":       extNop,
+		"internal/race.Disable":      extNop,
+		"internal/race.Read":         extNop,
+		"internal/race.Write":        extNop,
+		"internal/race.ReadRange":    extNop,
+		"internal/race.WriteRange":   extNop,
+		"(*sync.Mutex).Lock":         extNop,
+		"(*sync.Mutex).Unlock":       extNop,
+		"(*sync.Mutex).TryLock":      func(fr *frame, a []value) value { return true },
+		"(*sync.RWMutex).Lock":       extNop,
+		"(*sync.RWMutex).Unlock":     extNop,
+		"(*sync.RWMutex).RLock":      extNop,
+		"(*sync.RWMutex).RUnlock":    extNop,
+		"(*sync.WaitGroup).Add":      extNop,
+		"(*sync.WaitGroup).Done":     extNop,
+		"(*sync.WaitGroup).Wait":     extNop,
 		"(*sync.WaitGroup).Go": func(fr *frame, a []value) value {
 			fr.i.call(fr, 0, a[1], nil)
 			return nil
@@ -441,22 +441,22 @@ func init() {
 			fr.i.call(fr, 0, a[1], nil)
 			return nil
 		},
-		"math.Float64bits":     func(fr *frame, a []value) value { return math.Float64bits(a[0].(float64)) },
-		"math.Float64frombits": func(fr *frame, a []value) value { return math.Float64frombits(a[0].(uint64)) },
-		"math.Float32bits":     func(fr *frame, a []value) value { return math.Float32bits(a[0].(float32)) },
-		"math.Float32frombits": func(fr *frame, a []value) value { return math.Float32frombits(a[0].(uint32)) },
-		"math.Abs":             func(fr *frame, a []value) value { return math.Abs(a[0].(float64)) },
-		"math.Floor":           func(fr *frame, a []value) value { return math.Floor(a[0].(float64)) },
-		"math.floor":           func(fr *frame, a []value) value { return math.Floor(a[0].(float64)) },
-		"math.Sqrt":            func(fr *frame, a []value) value { return math.Sqrt(a[0].(float64)) },
-		"math.sqrt":            func(fr *frame, a []value) value { return math.Sqrt(a[0].(float64)) },
-		"os.Getenv":            func(fr *frame, a []value) value { return "" },
-		"os.LookupEnv":         func(fr *frame, a []value) value { return tuple{"", false} },
-		"os.runtime_args":      func(fr *frame, a []value) value { return []value{} },
+		"math.Float64bits":                  func(fr *frame, a []value) value { return math.Float64bits(a[0].(float64)) },
+		"math.Float64frombits":              func(fr *frame, a []value) value { return math.Float64frombits(a[0].(uint64)) },
+		"math.Float32bits":                  func(fr *frame, a []value) value { return math.Float32bits(a[0].(float32)) },
+		"math.Float32frombits":              func(fr *frame, a []value) value { return math.Float32frombits(a[0].(uint32)) },
+		"math.Abs":                          func(fr *frame, a []value) value { return math.Abs(a[0].(float64)) },
+		"math.Floor":                        func(fr *frame, a []value) value { return math.Floor(a[0].(float64)) },
+		"math.floor":                        func(fr *frame, a []value) value { return math.Floor(a[0].(float64)) },
+		"math.Sqrt":                         func(fr *frame, a []value) value { return math.Sqrt(a[0].(float64)) },
+		"math.sqrt":                         func(fr *frame, a []value) value { return math.Sqrt(a[0].(float64)) },
+		"os.Getenv":                         func(fr *frame, a []value) value { return "" },
+		"os.LookupEnv":                      func(fr *frame, a []value) value { return tuple{"", false} },
+		"os.runtime_args":                   func(fr *frame, a []value) value { return []value{} },
 		"internal/godebug.(*Setting).Value": func(fr *frame, a []value) value { return "" },
 		"(*internal/godebug.Setting).Value": func(fr *frame, a []value) value { return "" },
 		"(*internal/godebug.Setting).IncNonDefault": extNop,
-		"internal/godebug.New": func(fr *frame, a []value) value { return (*value)(nil) },
+		"internal/godebug.New":                      func(fr *frame, a []value) value { return (*value)(nil) },
 		"math/bits.Mul64": func(fr *frame, a []value) value {
 			x, xok := a[0].(uint64)
 			y, yok := a[1].(uint64)
